@@ -425,6 +425,57 @@ def _task_limits(_):
     return res
 
 
+def _task_fd_sequences(_):
+    """several descriptor-carrying calls built one after the other in one
+    process: every one is well-formed on its own (one unix_fds field, the
+    right count) and the calls without descriptors in between carry none"""
+    from txdbus import message as M
+    fakes.reset_process_state()
+    res = core.Result()
+    bodies = [('h', [5]), ('', []), ('hh', [6, 7]), ('s', ['x']),
+              ('ah', [[8, 9, 10]]), ('(hs)', [[11, 'y']]), ('h', [12])]
+    for order in itertools.permutations(range(len(bodies)), 3):
+        res.count('states')
+        res.count('nontrivial')
+        for k in order:
+            sig, body = bodies[k]
+            res.count('transitions')
+            res.count('evaluations')
+            fds = []
+            try:
+                m = M.MethodCallMessage('/p', 'M', signature=sig or None,
+                                        body=body if sig else None,
+                                        oobFDs=fds)
+                p = R.parse_message(m.rawMessage, fds=list(fds))
+                nf = sig.count('h') if sig != 'ah' else 3
+                probs = []
+                if p['fields'].get('unix_fds', 0) != nf:
+                    probs.append('declares %r descriptors, carries %d'
+                                 % (p['fields'].get('unix_fds'), nf))
+                if len(fds) != nf:
+                    probs.append('collected descriptors %r' % (fds,))
+                if sig and p['body'] != body:
+                    probs.append('body resolves to %r' % (p['body'],))
+                pm = M.parseMessage(m.rawMessage, list(fds))
+                if sig and pm.body != body:
+                    probs.append('parseMessage body %r' % (pm.body,))
+            except R.RefError as e:
+                probs = ['not well-formed: %s' % e]
+            except Exception as e:
+                probs = ['raised %r' % (e,)]
+            if probs:
+                res.violation(
+                    '%s/fd-sequence/%s' % (PROP, probs[0].split()[0]),
+                    'calls with bodies %r built in this order; the one with '
+                    '%r: %s' % ([bodies[i][0] for i in order], sig,
+                                '; '.join(probs)),
+                    {'part': 'fdseq', 'order': list(order)}, size=3)
+                break
+    res.sample({'descriptor_call_sequences': 'every ordered triple of %d '
+                'bodies' % len(bodies)})
+    return res
+
+
 def run(ctx):
     ctx.rule = (
         '4 message types x every subset of optional constructor fields x the '
@@ -446,6 +497,7 @@ def run(ctx):
     n = ctx.jobs * 2
     ctx.map(_task, [(ctx.quick, i, n) for i in range(n)])
     ctx.map(_task_limits, [0])
+    ctx.map(_task_fd_sequences, [0])
 
 
 def replay(data):
@@ -463,6 +515,8 @@ def replay(data):
                  for pos, code, sig, val in data['extra']]
         check_foreign(res, exp, data['serial'], data['little'],
                       data['order'], extra)
+    elif data['part'] == 'fdseq':
+        res = _task_fd_sequences(0)
     else:
         res = _task_limits(0)
     return [(s, v['what']) for s, v in res.violations.items()]
